@@ -230,6 +230,16 @@ var c06Invalid = []struct {
 		d["changelog"] = tree(env).P("etc/app.conf")
 		d["contents"] = []any{map[string]any{"src": tree(env).P("doc/README"), "dst": fmt.Sprintf("/usr/share/doc/%v/changelog.Debian.gz", d["name"]), "type": "doc"}}
 	}},
+	// a package time the rpm header cannot state (32-bit seconds since 1970), with and without contents
+	{"rpm-mtime-before-1970-no-contents", []string{"rpm"}, func(env *engine.Env, d fixture.Doc, f string) {
+		d["mtime"] = "1960-02-03T04:05:06Z"
+		delete(d, "contents")
+	}},
+	{"rpm-mtime-after-2106-no-contents", []string{"rpm"}, func(env *engine.Env, d fixture.Doc, f string) {
+		d["mtime"] = "2110-02-03T04:05:06Z"
+		delete(d, "contents")
+	}},
+	{"rpm-mtime-after-2106", []string{"rpm"}, func(env *engine.Env, d fixture.Doc, f string) { d["mtime"] = "2110-02-03T04:05:06Z" }},
 	{"name-empty", Formats, func(env *engine.Env, d fixture.Doc, f string) { d["name"] = "" }},
 	{"content-collision-same-source", Formats, func(env *engine.Env, d fixture.Doc, f string) {
 		d["contents"] = []any{map[string]any{"src": tree(env).P("etc/app.conf"), "dst": "/x", "file_info": map[string]any{"mode": 0o600}},
